@@ -19,11 +19,12 @@
  *                                         ops run inside the callback (server calls, or client calls standing for
  *                                         the concurrently running client process), then the callback returns <ret>
  *
- * events: {"e":name,"a":[..],"r":[..],"o":[lreq,lresp,levt,c2s,s2c,outstanding,pollout,crd,srd,fc]}
+ * events: {"e":name,"a":[..],"r":[..],"o":[lreq,lresp,levt,c2s,s2c,outstanding,pollout,crd,srd,fc,nreq,nresp,nevt]}
  *   a message is the triple [id,len,hash]; o = projection of the real state after the step:
  *   queue lengths of the three channels, notification bytes in flight in both directions (FIONREAD),
  *   deferred notifications, whether POLLOUT is registered for the connection, poll() on qb_ipcc_fd_get(),
- *   poll() on the server's registered descriptor, the shared flow-control word.
+ *   poll() on the server's registered descriptor, the shared flow-control word, and the connection's statistics
+ *   counters (qb_ipcs_connection_stats_get: requests, responses, events).
  *
  * --kf-skip1: known finding KF-C02-1: a client event receive that would consume the last notification byte
  *   while notifications are still deferred and more events are queued is not executed (exactly the trigger).
@@ -163,6 +164,10 @@ static void vt_obs_end(void)
 		vt_i(readable(cfd));
 		vt_i(e ? readable(e->fd) : 0);
 		vt_i(cli->funcs.fc_get(&cli->request));
+		struct qb_ipcs_connection_stats st;
+		memset(&st, 0, sizeof(st));
+		qb_ipcs_connection_stats_get(conn, &st, QB_FALSE);
+		vt_i((long long)st.requests); vt_i((long long)st.responses); vt_i((long long)st.events);
 	}
 	vt_end();
 }
